@@ -115,6 +115,7 @@ mod struct1 {
         assert!(s1.finish() == Err(SerializeError::TooFewElements));
     }
 
+    #[cfg(any(verif_unit = "all", verif_unit = "shapes_struct_t"))]
     #[kani::proof]
     #[kani::unwind(14)]
     #[kani::stub(crate::UnknownFields::new, unknown_fields_new)]
